@@ -16,6 +16,7 @@ Theorems (over Model/ListOffsets.lean and Model/Seek.lean):
   seek_no_change_on_error a failed Seek leaves the connection offset unchanged
   offset_roundtrip        Conn.Offset reports a position that Seek maps back to the same connection offset
   mapping_exact_*         the field mappings as theorems over Model/Mappings.lean and Model/ListOffsets.lean:
+    mapping_exact_offsetFetch_all  nil/empty user map → NULL on the wire → every committed partition (an empty array would give none)
     mapping_exact_offsetFetch      coordinator state → OffsetFetch answer → user response = the state, per requested partition
     mapping_exact_offsetCommit_request / _response   every user commit reaches the wire unchanged; per-partition errors come back
     mapping_exact_consumerOffsets  partition → committed offset of the coordinator
@@ -310,6 +311,31 @@ theorem mapping_exact_offsetFetch (c : Coord) (g : String) (topics : List (Strin
     · simp only [List.map_map]; exact hnd
 
 example : (offsetFetchRequest "g" []).2 = none := rfl
+
+/-- Kafka's OffsetFetch: a NULL topics array asks for every partition the group has committed (`all`); an array
+— even an empty one — asks for exactly its entries -/
+def coordAnswer (c : Coord) (all : List (String × List Int)) : Option (List (String × List Int)) → OFResponse
+  | none => coordFetch c all
+  | some asked => coordFetch c asked
+
+/-- **OffsetFetch, all-topics form**: a nil or empty user map is sent as NULL (not as an empty array), so the
+user-level response lists every partition the group has committed with the coordinator's values; an empty
+array would have been answered with no topic at all. -/
+theorem mapping_exact_offsetFetch_all (c : Coord) (g : String) (all : List (String × List Int))
+    (hnd : (all.map (·.1)).Nodup) (t : String) (ps : List Int) (hmem : (t, ps) ∈ all) :
+    (offsetFetchRequest g []).2 = none ∧
+    (offsetFetchResponse (coordAnswer c all (offsetFetchRequest g []).2)).topics.lookup t
+      = some (ps.map fun p => ⟨p, (c.value t p).1, (c.value t p).2.1, (c.value t p).2.2⟩) ∧
+    (offsetFetchResponse (coordAnswer c all (some []))).topics = [] := by
+  refine ⟨rfl, ?_, rfl⟩
+  show (offsetFetchResponse (coordFetch c all)).topics.lookup t = _
+  simp only [offsetFetchResponse, coordFetch, goMap]
+  apply lookup_foldl_ainsert
+  · simp only [List.map_map, List.mem_map]
+    refine ⟨(t, ps), hmem, ?_⟩
+    simp [convOF, Coord.part, Function.comp]
+  · simp only [List.map_map]; exact hnd
+
 
 /-- **OffsetCommit, request side**: every commit the user listed reaches the protocol request with its partition,
 offset and metadata unchanged, in the user's order, under its topic; nothing else is added. -/
